@@ -454,7 +454,10 @@ pub fn run(c: &Ctx) {
         c.judge("ops", ops, r);
     });
     c.note("matrix_cases", cases.len());
-    // the same matrix for the real-filesystem backend: Stdfs vs Vfs::Stdfs on twin sandbox directories
+    // the same matrix for the real-filesystem backend: Stdfs vs Vfs::Stdfs on twin sandbox directories, under a
+    // umask other than the usual 022 (a way that picks a mode of its own instead of leaving it to the backend and
+    // the umask shows only then); restored after the Stdfs parts
+    let old_umask = unsafe { libc::umask(0o027) };
     let spaths = ["@/dang", "@/d/gw", "@/d/gx", "@", "@/d", "@/d/f", "@/d/sub", "@/d/sub/g", "@/exe", "@/lf", "@/ld", "@/nope", "@/d/new", "@/new/deep"];
     let mut twin: Vec<Op> = vec![];
     for p in spaths {
@@ -531,6 +534,49 @@ pub fn run(c: &Ctx) {
         }
         c.judge("stdfs-twin-prog", &prog, check_stdfs_twin_prog(&prog));
     });
+    // a read handle that stays open across a rewrite of its file: what it returns afterwards is what the backend's
+    // own handle returns (a wrapper that reads ahead on its own hands back stale bytes)
+    {
+        c.eval(1);
+        c.nontrivial(fp(&"read-handle-liveness"));
+        c.class("stdfs-twin:read-handle-across-a-rewrite");
+        let dir = crate::sandbox::root().join("c13-live");
+        let _ = std::fs::create_dir_all(&dir);
+        let mut obs: Vec<(Vec<u8>, usize, usize)> = vec![];
+        let mut err: Option<String> = None;
+        for way in 0..3u8 {
+            let f = dir.join(format!("f{}", way));
+            let _ = std::fs::write(&f, vec![b'o'; 20_000]);
+            let opened: RvResult<Box<dyn ReadSeek>> = match way {
+                0 => Stdfs::new().read(&f),
+                1 => Vfs::stdfs().read(&f),
+                _ => Stdfs::read(&f),
+            };
+            match opened {
+                Ok(mut h) => {
+                    let mut head = vec![0u8; 10];
+                    let _ = h.read_exact(&mut head);
+                    // rewritten in place (same inode), behind the handle's back
+                    let _ = std::fs::OpenOptions::new().write(true).open(&f).and_then(|mut w| std::io::Write::write_all(&mut w, &vec![b'N'; 20_000]));
+                    let mut rest = vec![];
+                    let _ = h.read_to_end(&mut rest);
+                    obs.push((head, rest.iter().filter(|b| **b == b'o').count(), rest.iter().filter(|b| **b == b'N').count()));
+                },
+                Err(e) => err = Some(e.to_string()),
+            }
+        }
+        let _ = std::fs::remove_dir_all(&dir);
+        let res = match err {
+            Some(e) => {
+                c.inconclusive(&format!("cannot open a read handle on the sandbox: {}", e));
+                Ok(())
+            },
+            None if obs[0] == obs[1] && obs[0] == obs[2] => Ok(()),
+            None => Err(Failure::new("read|handle-across-a-rewrite-differs-between-the-three-ways|stdfs", format!("(first 10 bytes, old bytes, new bytes in the rest): method on the Stdfs value {:?}, Vfs::Stdfs {:?}, Stdfs::read {:?}", obs[0], obs[1], obs[2]))),
+        };
+        c.judge("read-liveness", &json!(null), res);
+    }
+    unsafe { libc::umask(old_umask) };
     crate::sandbox::cleanup();
     // set_cwd on the real filesystem, the three ways, in a child process (the cwd is process-global): also when
     // the new cwd is reached through a link (what the call returns is the backend's answer, not a second opinion)
